@@ -1712,6 +1712,21 @@ class Walker:
                 self.rz(outs, s, node, "TypeError", "iteration over a value that may not be iterable", [("nottype", it, CONTAINERS)])
         return base, mode
 
+    def _int_constant(self, t):
+        """the value of an int constant, or of a module-level name bound once to one"""
+        for _ in range(4):
+            if is_const(t):
+                return t[2] if isinstance(t[2], int) and not isinstance(t[2], bool) else None
+            if isinstance(t, tuple) and len(t) == 2 and t[0] == "global" and t[1].startswith("const:"):
+                if self.eng.is_rebound(*t[1][6:].rsplit(".", 1)):
+                    return None
+                t = self.eng.const_literal(t[1][6:])
+                if t is None:
+                    return None
+                continue
+            return None
+        return None
+
     def _elem_of_class_table(self, b):
         """b is an element of a module-level display all of whose items are classes / builtin types"""
         if not (isinstance(b, tuple) and len(b) == 3 and b[0] == "elem"):
@@ -2566,6 +2581,12 @@ class Walker:
         for s, (l, r) in cur:
             if op == "+" and is_const(l) and is_const(r) and type(l[2]) is type(r[2]) and isinstance(l[2], (str, bytes)):
                 outs.append((s, "val", C(l[2] + r[2])))  # constant folding: "r" + "b"
+                continue
+            nl, nr = self._int_constant(l), self._int_constant(r)
+            if nl is not None and nr is not None and op in ("+", "-", "*", "//", "%", "<<", "|", "&") and not (op in ("//", "%") and nr == 0) and not (op == "<<" and not 0 <= nr <= 64):
+                # integer arithmetic on constants (HEX_KEY_LENGTH = 2 * KEY_LENGTH): the number itself
+                val = {"+": nl + nr, "-": nl - nr, "*": nl * nr, "//": nl // nr if nr else 0, "%": nl % nr if nr else 0, "<<": nl << nr if 0 <= nr <= 64 else 0, "|": nl | nr, "&": nl & nr}[op]
+                outs.append((s, "val", C(val)))
                 continue
             t = ("binop", op, l, r)
             tl, tr = s.types(l), s.types(r)
